@@ -5,7 +5,7 @@ import time
 import traceback
 import z3
 from . import smt, ropes, specfuns
-from .values import Unsupported, V, VInt, VBool, VNone, NONE, VFloat, Seg, VSeq, VTuple, VRef, VFunc, VClass, \
+from .values import LazyInit, Unsupported, V, VInt, VBool, VNone, NONE, VFloat, Seg, VSeq, VTuple, VRef, VFunc, VClass, \
     VModule, VOpaque, VExc, HeapObj, is_conc, zint, zbool, simp
 from .symexec import PathEnd, ReturnSig, BreakSig, ContinueSig, PyExc, Frame, State, Path
 from .interp import Interp, mangle
@@ -571,7 +571,7 @@ class Engine:
                 if before is None or before is cur:
                     continue
                 try:
-                    same = I.equal(before, cur)
+                    same = False if isinstance(before, LazyInit) else I.equal(before, cur)
                 except Unsupported:
                     same = False
                 st.oblige("%s::frame(%s.%s)" % (qualname, o.cls.rsplit(".", 1)[-1], name), same, kind="frame")
